@@ -9,5 +9,5 @@ CONSTANTS
   NoEOFCheck = FALSE
   DropUnterminated = FALSE
   WrapPlaceholder = FALSE
-INVARIANTS TokensOK BytesOK EmitBytes
+INVARIANTS TokensOK BytesOK EmitBytes EmitTokens
 CHECK_DEADLOCK FALSE
